@@ -41,5 +41,5 @@ META = {
             "topologies covering every shape-dependent branch (arities, child positions, multi-basis nodes, partial operators): all contraction networks, "
             "all decompositions, addition and the compression sweep. Values (norms, entropies, dense equality) are not decided.",
     "note": "Entropy formulas (functions of the RDM values) are not analysed.",
-    "design_ref": "DESIGN.md 3.3, 4 (C11)",
+    "design_ref": "DESIGN.md 3.3, 4 (C11); as built: 9.1, 9.3, 9.8",
 }
